@@ -168,7 +168,8 @@ func c03Run(w *Worker, tape *simrt.Tape) *Outcome {
 	slot := ch(w.paramInt("slots", 40))
 	fx, err := w.fixture(be, curve, slot, c03Feat, true)
 	if err != nil {
-		o.violate("fixture", "fixture:"+beNames[be], "cannot build fixture (Compile/Setup failed): "+err.Error())
+		o.probe("fixture_skipped") // the generated program does not compile (e.g. commits to a constant): not a case
+		o.Desc = "skipped: " + err.Error()
 		return o
 	}
 	os := optSets[ch(len(optSets))]
